@@ -43,8 +43,11 @@ def gen_session_case(prop: str, seed: int, tier: str, *, profile: str = "edit", 
     og = gen.OpGen(st("ops"), cfg, seed)
     rr = st("restart")
     ops: list[dict] = []
-    for _ in range(cfg["ops"]):
-        if cfg["restart"] == "restart" or (cfg["restart"] == "mixed" and rr.random() < 0.4):
+    budget = cfg["ops"]
+    while budget > 0 or og.plan:
+        budget -= 1
+        scripted = bool(og.plan)  # a scripted triple runs to its end on the same object
+        if not scripted and (cfg["restart"] == "restart" or (cfg["restart"] == "mixed" and rr.random() < 0.4)):
             if ops:
                 ops.append({"op": "restart"})
         op = og.pick(dm, scoped_bias=scoped_bias)
